@@ -126,8 +126,21 @@ PROPS["C12"] = {
 ENGINES.append({"name": "client", "path": "overlay/verifsim/client", "serves_properties": ["C12"],
     "kind_free_text": "real sunlight.Client against a scheduler-controlled adversarial Static CT server on the fake clock"})
 
+PROPS["C18"] = {
+    "engine": "gc", "quick_budget": 45, "thorough_budget": 600,
+    "level_note": "Trusted: the reference tile layout (required tiles of a tree of size n), os directory walking. Real: cleanDir, overrideImmutable, logSize, mirroredLogSize called in-package in the order main() uses, and the built partial-aftersun binary on a quarter of the runs; the log directories are written by the real sequencer over the real LocalBackend (seeded histories of rounds that leave partials behind, optionally a round that dies after its lock commit and tile uploads), mirror directories by the reference model. The immutable inode flag is not in effect on the scratch file system (tmpfs).",
+    "level_text": "The property has no schedule or clock in it; what varies is the directory. Directories come from seeded histories of real sequencing rounds around every tile-level boundary (1..1025, and 65535..65795 in a fraction of runs), with the lock store ahead of storage, leftovers of crashed durable writes, unknown files, full tiles lost or replaced by directories, files named like partial directories; oracle: every removed path is a partial tile (or its emptied directory) whose full tile exists, is a non-empty regular file and lies strictly left of the right edge of the published size, nothing else changed or appeared, the trees at the published and at the lock checkpoint are still complete, and LoadLog plus a sequencing round succeed on the cleaned directory. Exploration over generated directory histories, stated as such.",
+    "expect_probes": ["removed.files", "tool.binary", "tool.inpackage", "reload.ok", "junk.empty-full", "junk.tempfile", "tool.error"],
+    "real": ["cmd/partial-aftersun: cleanDir, overrideImmutable, logSize, mirroredLogSize (in-package) and the built binary", "internal/ctlog sequencer and LocalBackend (to produce the directories and to reload them)"],
+    "stubbed": ["lock store: in-memory map", "mirror directories: rendered by the reference model instead of a running witness"],
+    "assumptions": ["no concurrent writer while the tool runs", "sampling: a clean batch is evidence, not proof"],
+    "rule": "one evaluation = one generated directory (seeded history of sequencing rounds / mirror uploads plus seeded junk) cleaned by the tool; non-trivial = the tool removed at least one file, or junk or a lock-ahead round was planted; distinct = distinct profile (sizes, lock-ahead, junk, kind) hash",
+}
+ENGINES.append({"name": "gc", "path": "overlay/cmd/partial-aftersun", "serves_properties": ["C18"],
+    "kind_free_text": "in-package harness of cmd/partial-aftersun over directories produced by the real sequencer and LocalBackend"})
+
 NOT_APPLICABLE = {
     "C10": "pure function of its input (codec bijections): no schedule, clock, fault, I/O or second party for a simulator to control; deciding it is input generation (property-based testing), which is outside this technique. See DESIGN.md §6.",
 }
-for _p in ["C09", "C18", "C19", "C20"]:
+for _p in ["C09", "C19", "C20"]:
     NOT_APPLICABLE[_p] = "not claimed yet: the simulator for this property is still being built (see DESIGN.md §5 for the plan)"
